@@ -3,6 +3,7 @@ package main
 import (
 	"bufio"
 	"fmt"
+	"golang.org/x/text/encoding/charmap"
 	"os"
 	"path/filepath"
 	"strconv"
@@ -71,8 +72,71 @@ func c11Input(c *Ctx, j int) (src string, opts *distiller.Options, paging bool, 
 			src = strings.Replace(src, "</body>", "<h2>U\u0308ber\u00adra\u00adschung cafe\u0301</h2><p>"+strings.Repeat("Stra\u00dfen\u00adbahn re\u0301sume\u0301 na\u00efve \u00a0 co\u00f6perate ", 12)+"</p></body>", 1)
 			return src, &distiller.Options{OriginalURL: mustURL("http://example.com/news/story.html")}, false, "markup+unicode"
 		}
+		if j%8 == 7 {
+			// bytes in a legacy single-byte encoding (declared or not), or UTF-8 with very few
+			// non-ASCII characters: inputs on which a statistical charset detector has close calls
+			return legacyCharsetDoc(r), &distiller.Options{OriginalURL: mustURL("http://example.com/news/story.html")}, false, "legacy-charset"
+		}
 		return src, &distiller.Options{OriginalURL: mustURL("http://example.com/news/story.html")}, false, "markup"
 	}
+}
+
+var legacySamples = []struct {
+	enc  *charmap.Charmap
+	name string
+	text []string
+}{
+	{charmap.ISO8859_1, "ISO-8859-1", []string{"La señora de España llegó mañana con el niño pequeño.", "El pingüino comió jamón y después durmió en la montaña.", "¿Cuándo volverá el señor Muñoz a la compañía?"}},
+	{charmap.ISO8859_1, "ISO-8859-1", []string{"Le café près de l'hôtel était fermé à cause de la fête.", "Où est passée la crème brûlée que j'ai commandée hier ?", "Noël approche et les élèves préparent déjà leurs cadeaux."}},
+	{charmap.ISO8859_1, "ISO-8859-1", []string{"Die Straße führt über die Brücke zum größten Gebäude.", "Müller kauft Äpfel, Öl und süße Brötchen für das Frühstück."}},
+	{charmap.Windows1252, "windows-1252", []string{"The “quoted” café — naïve résumé’s coöperation… costs €5.", "A plain English sentence with only one é in it for good measure."}},
+	{charmap.ISO8859_2, "ISO-8859-2", []string{"Zażółć gęślą jaźń, a potem wróć do domu przed północą.", "Łódź jest dużym miastem w środkowej Polsce, gdzie mieszka wiele osób."}},
+	{charmap.Windows1251, "windows-1251", []string{"Съешь ещё этих мягких французских булок, да выпей чаю.", "В чащах юга жил бы цитрус? Да, но фальшивый экземпляр!"}},
+	{charmap.ISO8859_7, "ISO-8859-7", []string{"Ξεσκεπάζω την ψυχοφθόρα βδελυγμία στην πόλη των Αθηνών."}},
+	{charmap.ISO8859_9, "ISO-8859-9", []string{"Pijamalı hasta yağız şoföre çabucak güvendi ve gülümsedi."}},
+}
+
+// legacyCharsetDoc returns the bytes of a small article in a legacy encoding
+// (or in UTF-8 with few non-ASCII characters).
+func legacyCharsetDoc(r *RNG) string {
+	smp := legacySamples[r.Intn(len(legacySamples))]
+	var body strings.Builder
+	n := 2 + r.Intn(5)
+	for i := 0; i < n; i++ {
+		body.WriteString("<p>")
+		for k := 0; k < 1+r.Intn(4); k++ {
+			body.WriteString(smp.text[r.Intn(len(smp.text))] + " ")
+		}
+		if r.Chance(1, 2) {
+			body.WriteString(fillerWords(r, 10+r.Intn(40)))
+		}
+		body.WriteString("</p>\n")
+	}
+	title := smp.text[0]
+	if len(title) > 60 {
+		title = title[:strings.LastIndex(title[:60], " ")]
+	}
+	meta := ""
+	switch r.Intn(3) {
+	case 0:
+		meta = `<meta charset="CHARSET">`
+	case 1:
+		meta = `<meta http-equiv="Content-Type" content="text/html; charset=CHARSET">`
+	}
+	utf8Doc := r.Chance(1, 4)
+	name := smp.name
+	if utf8Doc {
+		name = "utf-8"
+	}
+	doc := "<html><head>" + strings.ReplaceAll(meta, "CHARSET", name) + "<title>" + title + "</title></head><body><h1>" + title + "</h1>\n" + body.String() + "</body></html>"
+	if utf8Doc {
+		return doc
+	}
+	out, err := smp.enc.NewEncoder().String(doc)
+	if err != nil {
+		return doc
+	}
+	return out
 }
 
 func runC11(c *Ctx, idx int) {
@@ -94,17 +158,39 @@ func runC11(c *Ctx, idx int) {
 			R = 40
 		}
 	}
+	if kind == "legacy-charset" {
+		R = 24 // cheap documents; the encoding guess is what is being repeated
+		if !c.Quick() {
+			R = 60
+		}
+	}
 	if pass == 2 {
 		R = 2
 	}
 	c.SetInput(func() any { return map[string]any{"html": src, "options": optsDesc(opts)} })
+	asciiOnly := true
+	for i := 0; i < len(src); i++ {
+		if src[i] >= 0x80 {
+			asciiOnly = false
+			break
+		}
+	}
+	if !asciiOnly {
+		c.Inc("inputs_non_ascii")
+	}
 	var first resultView
 	var firstHow string
 	path := filepath.Join(c.scratch, fmt.Sprintf("c11.%d.html", c.Shard))
 	for rep := 0; rep < R; rep++ {
 		var cr callResult
 		how := []string{"ApplyForReader", "Apply(dom.Parse)", "ApplyForFile"}[rep%3]
-		switch rep % 3 {
+		route := rep % 3
+		if route == 1 && !asciiOnly {
+			// which encoding the harness-side parser guesses for non-ASCII bytes is not the
+			// library's business; such inputs go through the library's own entry points only
+			how, route = "ApplyForReader", 0
+		}
+		switch route {
 		case 0:
 			cr = c.applyReader(src, opts)
 		case 1:
